@@ -23,6 +23,12 @@ CLAIMED = {
  "C12": ("model_checking", "6", "Trace predicates C12_RatioDomain (TLC recomputes the range test bit-exactly from the f64 words of argument and bounds), C12_RejectNoop, C12_ChunkDomain, C12_ChunkEffect over argument classes x history points."),
  "C13": ("model_checking", "6", "Trace predicates C13_ErrVariant (TLC derives the set of faults of the call shape), C13_Untouched, C13_Ctor; malformed calls injected at every model history point and in seeded histories."),
  "C14": ("model_checking", "6", "Trace predicates C14_Delay (instants vs reported delay, cleared of fractions) and C14_Peak (impulse position through real sinc kernels and the FFT resamplers)."),
+ "C05": ("model_checking", "6", "TLC: content-model invariants (Contiguous, C06_Supplied) under every chunk schedule on the models; TraceTwin predicates TwinBlocks (FFT adapters / (chunk, sub) pairs resolving to one block size: bit-identical block digests) and TwinTaus (async: identical evaluation instants across chunk sizes, set_chunk_size schedules and FixedIn/FixedOut)."),
+ "C10": ("model_checking", "6", "TLC: action property C10_ResetIsInit on AsyncPos/FftBlocks from every reachable state; TraceTwin predicate TwinFull between a used-then-reset instance (history = every reachable model state, plus seeded histories with ramps, masks, failed calls, partial calls) and a fresh twin: identical getters, counts and bit-identical digests."),
+ "C11": ("model_checking", "6", "TraceTwin predicates TwinChan (channel c of an n-channel instance vs a one-channel twin, bit-identical) and TwinCtl (masked vs unmasked counts/getters), Contract predicate C11_MaskUntouched (sentinel-filled masked outputs, empty slices for masked channels), n in 1..8, constant masks incl. all-false."),
+ "C16": ("model_checking", "6", "TraceTwin predicate TwinFull between an instance driven through process()/process_partial()/process_partial_into_buffer()/VecResampler and a twin driven through process_into_buffer on the zero-padded input, at every model history point and in seeded histories."),
+ "C17": ("model_checking", "6", "TraceTwin predicate TwinCtl between f32 and f64 instances on identical histories (results, counts, all getters). The numeric half of C17 (outputs within a multiple of f32 epsilon) is not decided by the specification and not claimed."),
+ "C18": ("model_checking", "6", "TLC on Fleet.tla (Isolation invariant, Diamond action property) enumerates every interleaving/migration schedule of N instances x M threads x K calls; each schedule is executed with real OS threads (independent steps truly concurrent, constructors racing) and TraceTwin predicate TwinFull compares every instance with its single-threaded reference, bit-identically."),
 }
 TECH = {
  "C03": "TLA+ as-is model checked by TLC + replay into the code + TLC trace validation against Contract.tla",
@@ -34,6 +40,14 @@ TECH = {
  "C13": "TLC trace validation with fault-set oracle in TLA+",
  "C14": "TLC trace validation of instants/impulse peaks against Contract.tla",
 }
+TECH.update({
+ "C05": "TLA+ content model checked by TLC + TLC trace validation of twin executions (TraceTwin.tla)",
+ "C10": "TLA+ action property checked by TLC + TLC trace validation of reset twins (TraceTwin.tla)",
+ "C11": "TLC trace validation of channel twins (TraceTwin.tla) and masked-output predicate (Contract.tla)",
+ "C16": "TLC trace validation of wrapper/core twins (TraceTwin.tla)",
+ "C17": "TLC trace validation of f32/f64 control twins (TraceTwin.tla)",
+ "C18": "TLC schedule enumeration (Fleet.tla) executed with real threads + TLC trace validation of thread twins",
+})
 NA = {
  "C01": "numeric passband fidelity (amplitudes in %, spurious content in dB over a continuum of tones) needs real analysis of a windowed-sinc/FFT filter; TLA+/TLC has no reals or transcendental functions (DESIGN.md section 6, C01)",
  "C02": "stopband attenuation in dB of a filter defined through sin/cos/window polynomials is numeric analysis, outside what a TLA+ specification can state or TLC can decide (DESIGN.md section 6, C02)",
@@ -70,7 +84,7 @@ def main():
                   "source_commits": hooks, "add_only": True},
         "engines": [
             {"name": "tlc-contract", "path": "/verif/spec", "serves_properties": sorted(CLAIMED),
-             "kind_free_text": "TLA+ specifications (Contract, TraceContract, AsyncPos, FftBlocks) checked with TLC; Rust harness /verif/harness drives the real resamplers; ./check orchestrates"}],
+             "kind_free_text": "TLA+ specifications (Contract, TraceContract, TraceTwin, AsyncPos, FftBlocks, Fleet) checked with TLC; Rust harness /verif/harness drives the real resamplers; ./check orchestrates"}],
         "checks": checks,
         "notes": "Known findings: /verif/known_findings.json. Exit 2 = tool error (no verdict). VERIF_SEED seeds generated scripts and sampling.",
         "not_applicable": na,
